@@ -12,7 +12,7 @@ if ! git -C "$work/repo" init -q 2>/dev/null; then :; fi
 if ! (cd "$work/repo" && patch -p1 -s < "$patch"); then echo "PATCH-FAILED"; exit 3; fi
 mkdir -p "$work/verif/.build" "$work/build"
 cp /verif/known-findings.json "$work/verif/"
-BSIM_REPO="$work/repo" BSIM_VERIF="$work/verif" BSIM_BUILD="$work/build" VERIF_SEED=$seed /verif/check "$prop" "$tier" > "$work/out.txt" 2>&1
+BSIM_REPO="$work/repo" BSIM_VERIF="$work/verif" BSIM_BUILD="$work/build" VERIF_SEED=$seed ${VERIF_SNAP:-/verif}/check "$prop" "$tier" > "$work/out.txt" 2>&1
 rc=$?
 grep -E "^violation|^VIOLATION|^KNOWN|^done|^INTERNAL|^BUILD|^WATCHDOG" "$work/out.txt" | cut -c1-300 | head -12
 if [ -n "${KEEP_REPLAY:-}" ] && ls "$work/verif/replays/"*.json >/dev/null 2>&1; then mkdir -p "$KEEP_REPLAY"; cp "$work/verif/replays/"*.json "$KEEP_REPLAY/"; fi
